@@ -58,7 +58,9 @@ func (rule *RuleEvents) checkCron(spec *String) {
 	p := cron.NewParser(cron.Minute | cron.Hour | cron.Dom | cron.Month | cron.Dow)
 	sched, err := p.Parse(spec.Value)
 	if err != nil {
-		rule.Errorf(spec.Pos, "invalid CRON format %q in schedule event: %s", spec.Value, err.Error())
+		// The parser's error may echo the spec as is. Keep the message in one line
+		msg := strings.ReplaceAll(err.Error(), "\n", " ")
+		rule.Errorf(spec.Pos, "invalid CRON format %q in schedule event: %s", spec.Value, msg)
 		return
 	}
 
